@@ -602,6 +602,34 @@ impl World {
                     let Some(TopicH::Plain(t, _)) = t else { return Res::Skipped("no topic") };
                     unit!(t.set_qos(QosKind::Specific(topic_qos(q))).await)
                 }
+                // QosKind::Default: the entity takes the default QoS its factory currently holds
+                "writer-default" => {
+                    let Some(wi) = self.writer(*id) else { return Res::Skipped("no writer") };
+                    match &wi.h {
+                        WriterH::Keyed(w) => unit!(w.set_qos(QosKind::Default).await),
+                        WriterH::Plain(w) => unit!(w.set_qos(QosKind::Default).await),
+                        WriterH::Other(w) => unit!(w.set_qos(QosKind::Default).await),
+                    }
+                }
+                "reader-default" => {
+                    let Some(ri) = self.reader(*id) else { return Res::Skipped("no reader") };
+                    match &ri.h {
+                        ReaderH::Keyed(w) => unit!(w.set_qos(QosKind::Default).await),
+                        ReaderH::Plain(w) => unit!(w.set_qos(QosKind::Default).await),
+                        ReaderH::Other(w) => unit!(w.set_qos(QosKind::Default).await),
+                    }
+                }
+                // the factory defaults themselves (id = publisher / subscriber)
+                "publisher-default-writer-qos" => {
+                    let x = self.st.borrow().publishers.get(id).cloned();
+                    let Some((x, _)) = x else { return Res::Skipped("no publisher") };
+                    unit!(x.set_default_datawriter_qos(QosKind::Specific(writer_qos(q))).await)
+                }
+                "subscriber-default-reader-qos" => {
+                    let x = self.st.borrow().subscribers.get(id).cloned();
+                    let Some((x, _)) = x else { return Res::Skipped("no subscriber") };
+                    unit!(x.set_default_datareader_qos(QosKind::Specific(reader_qos(q))).await)
+                }
                 _ => Res::Skipped("bad kind"),
             },
             Op::GetQos { kind, id } => match kind.as_str() {
